@@ -198,6 +198,59 @@ pub fn run(ctx: &Ctx) -> Report {
     rep.sections.push(sec);
 
     let mut sec = Section::new(
+        &format!("giant-fills[{}]", ctx.variant),
+        "clear / fill_solid of more than 2^30 pixels (65535x65535 external models, full size and large windows, all orientations): exactly one address-window set-up, one burst of exactly the window area (only the traffic is judged; the frame memory of such a window is not simulated)",
+    );
+    sec.exhaustive = true;
+    let mut cases = Vec::new();
+    for model in [crate::models::ModelId::EHuge, crate::models::ModelId::EHuge565] {
+        for (w, h, ox, oy) in [(65535u16, 65535u16, 0u16, 0u16), (50000, 30000, 15535, 35535), (65535, 16385, 0, 100), (40000, 30000, 1, 2)] {
+            for o in [Orient::ALL[0], Orient::ALL[1], Orient::ALL[6]] {
+                let mut cfg = Config::full(model, if model == crate::models::ModelId::EHuge565 { Transport::Rec16 } else { Transport::Rec8 });
+                cfg.w = w;
+                cfg.h = h;
+                cfg.ox = ox;
+                cfg.oy = oy;
+                cfg.orient = o;
+                cases.push(ProgCase { cfg: cfg.clone(), ops: vec![DrawOp::Clear { seed: 1 }] });
+                let (lw, lh) = cfg.logical_size(o);
+                cases.push(ProgCase { cfg, ops: vec![DrawOp::FillSolid { rect: Rect { x: -5, y: -5, w: lw + 10, h: lh + 10 }, seed: 2 }] });
+            }
+        }
+    }
+    run_enumerated(&mut sec, cases, ctx.workers, |c, info| {
+        info.nontrivial = true;
+        let mut s = Session::start(&c.cfg)?;
+        for op in &c.ops {
+            // (not Session::call: the reference image of a 4-gigapixel clear is never built)
+            let pulls = std::cell::Cell::new(0u64);
+            s.dut.run(op, &pulls).map_err(|e| format!("{} failed: {:?}", op_name(op), e))?;
+            let obs = {
+                let mut wb = s.w.borrow_mut();
+                crate::exec::CallObs {
+                    trace: wb.panel.take_trace(),
+                    bursts: wb.panel.take_bursts(),
+                    errors: wb.panel.take_errors(),
+                    decode_errors: std::mem::take(&mut wb.decode_errors),
+                    in_bounds_pixels: 0,
+                    pulls: 0,
+                    spi_transactions: 0,
+                }
+            };
+            crate::exec::check_framing(&obs, true)?;
+            let area = c.cfg.w as u64 * c.cfg.h as u64;
+            if window_setups(&obs) != 1 || obs.bursts.len() != 1 || obs.bursts[0].pixels != area {
+                return Err(format!(
+                    "{} of {} pixels used {} address-window set-ups and bursts of {:?} pixels, expected exactly one set-up and one burst of the whole area",
+                    op_name(op), area, window_setups(&obs), obs.bursts.iter().map(|b| b.pixels).collect::<Vec<_>>()
+                ));
+            }
+        }
+        Ok(())
+    }, sig);
+    rep.sections.push(sec);
+
+    let mut sec = Section::new(
         &format!("fills[{}]", ctx.variant),
         "C01 and C02 programs: fill_solid / fill_contiguous / clear use exactly one window set-up when the intersection is non-empty, at most one otherwise; SPI transaction bound",
     );
